@@ -55,6 +55,11 @@ def cases(rng, tier):
                     for place in ("form", "query"):
                         allc.append({"op": "auth", "header": h, "form": f, "methods": ml, "endpoint": ep, "place": place})
     out += rng.sample(allc, min(n, len(allc)))
+    # secrets that merely resemble the registered one (compatibility-equivalent characters, letter case, white space) are wrong secrets
+    for near in ("\uff53\uff50", "SP", "sp ", " sp", "sp\u200b", "s\u0070\u0301"[:2] + "\u0301"):
+        out.append({"op": "auth", "header": None, "form": {"client_id": "post", "client_secret": near}, "methods": METHOD_LISTS[1], "endpoint": "token", "place": "form"})
+    for near in ("\uff53\uff42", "SB", "sb ", "sb\u200b"):
+        out.append({"op": "auth", "header": "Basic " + b64(("basic:" + near).encode()), "form": {}, "methods": METHOD_LISTS[1], "endpoint": "token", "place": "form"})
     # endpoint level: every built-in endpoint with its own permitted list
     for ep in ENDPOINTS + ["token:authorization_code", "token:refresh_token", "token:client_credentials", "token:password", "token:device_code"]:
         for h in rng.sample(hdrs, 14) + [None, "Basic " + b64(b"basic:sb"), "Basic " + b64(b"basic:no")]:
